@@ -91,7 +91,8 @@ Qed.
 Lemma cq_set_transmission p s : aq s -> aq (fst (set_transmission p s)).
 Proof.
   intros H. unfold set_transmission. destruct p; [exact H|].
-  destruct (if first then Some [] else incoming (sr (nd s))); [|exact H]. destruct last; exact H.
+  destruct (if first then Some [] else incoming (sr (nd s))); [|exact H].
+  destruct last; [destruct (snap_ahead _ _)|]; exact H.
 Qed.
 
 Lemma cq_load_dump e cl s : aq s -> aq (load_dump e cl s).
